@@ -5,6 +5,8 @@ Full statement: `C01_full`.  Proved so far: the run right is handed out only fro
 -/
 import DesyncModel.Spec
 import DesyncModel.Tables
+import DesyncModel.FactFifo
+import DesyncModel.FactSyncFuture
 import DesyncModel.Inv.Holder
 
 namespace Desync.C01
@@ -44,6 +46,10 @@ theorem parked_queue_yields_no_job (st : QState) :
   dequeue_refuses_parked st
 
 theorem fifo_operations_only : queueOps = queueOpsExpected := queueOps_only_fifo
+
+/-- a cancelled future_sync operation's future (`state`) is destroyed before the completion sender
+(`task_finished`) releases the queue to the next operation -/
+theorem future_sync_destroyed_before_release : syncFutureFields = ["state", "scheduler_future", "task_finished"] := syncFuture_drop_order
 
 /-- In the initial state the holder invariant holds (the inductive step is proved in Inv/HolderStep). -/
 theorem holder_invariant_init (nq ng max : Nat) : HolderInv (initState nq ng max) := holderInv_init nq ng max
